@@ -4,6 +4,9 @@ gen/ActiveTagTables.vos gen/ActiveTagTables.vok gen/ActiveTagTables.required_vos
 gen/ConfigTables.vo gen/ConfigTables.glob gen/ConfigTables.v.beautified gen/ConfigTables.required_vo: gen/ConfigTables.v theories/Base.vo theories/ConfigTypes.vo
 gen/ConfigTables.vio: gen/ConfigTables.v theories/Base.vio theories/ConfigTypes.vio
 gen/ConfigTables.vos gen/ConfigTables.vok gen/ConfigTables.required_vos: gen/ConfigTables.v theories/Base.vos theories/ConfigTypes.vos
+gen/OutlineTables.vo gen/OutlineTables.glob gen/OutlineTables.v.beautified gen/OutlineTables.required_vo: gen/OutlineTables.v theories/Base.vo
+gen/OutlineTables.vio: gen/OutlineTables.v theories/Base.vio
+gen/OutlineTables.vos gen/OutlineTables.vok gen/OutlineTables.required_vos: gen/OutlineTables.v theories/Base.vos
 gen/StatusTable.vo gen/StatusTable.glob gen/StatusTable.v.beautified gen/StatusTable.required_vo: gen/StatusTable.v theories/Base.vo theories/Status.vo
 gen/StatusTable.vio: gen/StatusTable.v theories/Base.vio theories/Status.vio
 gen/StatusTable.vos gen/StatusTable.vok gen/StatusTable.required_vos: gen/StatusTable.v theories/Base.vos theories/Status.vos
@@ -49,6 +52,12 @@ theories/Formatters.vos theories/Formatters.vok theories/Formatters.required_vos
 theories/FormattersProofs.vo theories/FormattersProofs.glob theories/FormattersProofs.v.beautified theories/FormattersProofs.required_vo: theories/FormattersProofs.v theories/Base.vo theories/Status.vo theories/Rollup.vo theories/Runner.vo theories/RunnerSteps.vo theories/RunnerQuiet.vo theories/Formatters.vo gen/StatusTable.vo
 theories/FormattersProofs.vio: theories/FormattersProofs.v theories/Base.vio theories/Status.vio theories/Rollup.vio theories/Runner.vio theories/RunnerSteps.vio theories/RunnerQuiet.vio theories/Formatters.vio gen/StatusTable.vio
 theories/FormattersProofs.vos theories/FormattersProofs.vok theories/FormattersProofs.required_vos: theories/FormattersProofs.v theories/Base.vos theories/Status.vos theories/Rollup.vos theories/Runner.vos theories/RunnerSteps.vos theories/RunnerQuiet.vos theories/Formatters.vos gen/StatusTable.vos
+theories/Outline.vo theories/Outline.glob theories/Outline.v.beautified theories/Outline.required_vo: theories/Outline.v theories/Base.vo theories/UStr.vo gen/UnicodeTables.vo gen/OutlineTables.vo
+theories/Outline.vio: theories/Outline.v theories/Base.vio theories/UStr.vio gen/UnicodeTables.vio gen/OutlineTables.vio
+theories/Outline.vos theories/Outline.vok theories/Outline.required_vos: theories/Outline.v theories/Base.vos theories/UStr.vos gen/UnicodeTables.vos gen/OutlineTables.vos
+theories/OutlineProofs.vo theories/OutlineProofs.glob theories/OutlineProofs.v.beautified theories/OutlineProofs.required_vo: theories/OutlineProofs.v theories/Base.vo theories/UStr.vo theories/Outline.vo gen/UnicodeTables.vo gen/OutlineTables.vo
+theories/OutlineProofs.vio: theories/OutlineProofs.v theories/Base.vio theories/UStr.vio theories/Outline.vio gen/UnicodeTables.vio gen/OutlineTables.vio
+theories/OutlineProofs.vos theories/OutlineProofs.vok theories/OutlineProofs.required_vos: theories/OutlineProofs.v theories/Base.vos theories/UStr.vos theories/Outline.vos gen/UnicodeTables.vos gen/OutlineTables.vos
 theories/Rerun.vo theories/Rerun.glob theories/Rerun.v.beautified theories/Rerun.required_vo: theories/Rerun.v theories/Base.vo theories/Status.vo theories/Rollup.vo theories/Runner.vo theories/Summary.vo theories/Select.vo theories/SelectProofs.vo gen/StatusTable.vo
 theories/Rerun.vio: theories/Rerun.v theories/Base.vio theories/Status.vio theories/Rollup.vio theories/Runner.vio theories/Summary.vio theories/Select.vio theories/SelectProofs.vio gen/StatusTable.vio
 theories/Rerun.vos theories/Rerun.vok theories/Rerun.required_vos: theories/Rerun.v theories/Base.vos theories/Status.vos theories/Rollup.vos theories/Runner.vos theories/Summary.vos theories/Select.vos theories/SelectProofs.vos gen/StatusTable.vos
@@ -121,6 +130,9 @@ props/C02.vos props/C02.vok props/C02.required_vos: props/C02.v theories/Base.vo
 props/C03.vo props/C03.glob props/C03.v.beautified props/C03.required_vo: props/C03.v theories/Base.vo theories/Status.vo theories/Rollup.vo theories/RollupProofs.vo gen/StatusTable.vo
 props/C03.vio: props/C03.v theories/Base.vio theories/Status.vio theories/Rollup.vio theories/RollupProofs.vio gen/StatusTable.vio
 props/C03.vos props/C03.vok props/C03.required_vos: props/C03.v theories/Base.vos theories/Status.vos theories/Rollup.vos theories/RollupProofs.vos gen/StatusTable.vos
+props/C06.vo props/C06.glob props/C06.v.beautified props/C06.required_vo: props/C06.v theories/Base.vo theories/UStr.vo theories/Outline.vo theories/OutlineProofs.vo
+props/C06.vio: props/C06.v theories/Base.vio theories/UStr.vio theories/Outline.vio theories/OutlineProofs.vio
+props/C06.vos props/C06.vok props/C06.required_vos: props/C06.v theories/Base.vos theories/UStr.vos theories/Outline.vos theories/OutlineProofs.vos
 props/C07.vo props/C07.glob props/C07.v.beautified props/C07.required_vo: props/C07.v theories/Base.vo theories/UStr.vo theories/TagExpr.vo theories/TagExprProofs.vo
 props/C07.vio: props/C07.v theories/Base.vio theories/UStr.vio theories/TagExpr.vio theories/TagExprProofs.vio
 props/C07.vos props/C07.vok props/C07.required_vos: props/C07.v theories/Base.vos theories/UStr.vos theories/TagExpr.vos theories/TagExprProofs.vos
